@@ -98,7 +98,7 @@ def make_target(tree, form, odb):
     return idx
 
 
-def one_exec(prior, target, form, delete, link, missing=(), missing_dir=None, hashless=False):
+def one_exec(prior, target, form, delete, link, missing=(), missing_dir=None, hashless=False, handler="default"):
     from dvc_data.index import build as ibuild
     from dvc_data.index import md5 as imd5
     from dvc_data.index.checkout import apply, compare
@@ -119,6 +119,10 @@ def one_exec(prior, target, form, delete, link, missing=(), missing_dir=None, ha
         # the first compare may be given a workspace index without content hashes
         old = ibuild(ws, LFS) if hashless else imd5(ibuild(ws, LFS))
         errors = []
+        told = []
+        if handler == "collect":
+            # an application-installed, non-raising load-error handler on the target index
+            tgt.onerror = lambda entry, exc: told.append(entry.key)
         try:
             diff = compare(old, tgt, delete=delete)
             # with an unavailable source dvc itself applies with update_meta=False (the default
@@ -136,6 +140,9 @@ def one_exec(prior, target, form, delete, link, missing=(), missing_dir=None, ha
         want = {rel: CONT[c] for rel, (c, _e) in target.items()}
         unavailable = {rel for rel, (c, _e) in target.items() if c in missing}
         if missing_dir:
+            info["snap"] = (sorted(got.items()), sorted(gotd))
+            if handler == "collect" and (missing_dir,) not in told:
+                viol.append(("index-error-handler-not-told-about-unloadable-directory", f"{missing_dir}: {told}"))
             reported = {os.path.relpath(a[1], ws).replace(os.sep, "/") for a in errors if len(a) > 1 and a[1]}
             if missing_dir not in reported:
                 had = "workspace-has-that-directory" if os.path.isdir(os.path.join(ws, missing_dir)) and \
@@ -266,9 +273,14 @@ def run_case(case):
         for top in tops:
             for delete in (True, False):
                 viol, info = one_exec(prior, target, "lazy", delete, "copy", missing_dir=top)
-                res["n"] += 1
-                res["trans"] += 2
-                res["vac"]["unloadable_dir_runs"] = res["vac"].get("unloadable_dir_runs", 0) + 1
+                viol2, info2 = one_exec(prior, target, "lazy", delete, "copy", missing_dir=top, handler="collect")
+                viol = list(viol) + [(s_ + "/collecting-handler", d_) for s_, d_ in viol2]
+                if info.get("snap") is not None and info2.get("snap") is not None and info["snap"] != info2["snap"]:
+                    viol.append(("unloadable-directory-outcome-depends-on-the-load-error-handler",
+                                 f"{top}: default {info['snap'][1]} vs collecting {info2['snap'][1]}"))
+                res["n"] += 2
+                res["trans"] += 4
+                res["vac"]["unloadable_dir_runs"] = res["vac"].get("unloadable_dir_runs", 0) + 2
                 for sig, detail in viol:
                     if sig not in sigs:
                         sigs.add(sig)
@@ -285,6 +297,14 @@ def run_case(case):
 
 def replay(case):
     fix = lambda t: {k: tuple(v) for k, v in t.items()}  # noqa: E731
+    if case.get("missing_dir"):
+        a = (fix(case["prior"]), fix(case["target"]), "lazy", case["delete"], "copy")
+        v1, i1 = one_exec(*a, missing_dir=case["missing_dir"])
+        v2, i2 = one_exec(*a, missing_dir=case["missing_dir"], handler="collect")
+        out = list(v1) + [(s_ + "/collecting-handler", d_) for s_, d_ in v2]
+        if i1.get("snap") is not None and i2.get("snap") is not None and i1["snap"] != i2["snap"]:
+            out.append(("unloadable-directory-outcome-depends-on-the-load-error-handler", ""))
+        return out
     return one_exec(fix(case["prior"]), fix(case["target"]), case["form"], case["delete"], case["link"],
                     case.get("missing", []), case.get("missing_dir"), case.get("hashless", False))[0]
 
@@ -296,7 +316,7 @@ def run(ctx):
         f"E2 depth 1-2: every pair of {len(priors)} prior workspaces x {len(targets)} targets over paths "
         "{a, a/z, d, d/x, d/s, d/s/y} (file<->directory kind changes at depth 1 and 2, two contents, exec bit) x "
         "target form {explicit entries, lazily loaded directory objects} x delete on/off x link type; real "
-        "build+md5+compare+apply, workspace walk, second compare; plus targets with an unavailable source object and lazy targets whose directory object is not in storage (workspace with / without that directory); "
+        "build+md5+compare+apply, workspace walk, second compare; plus targets with an unavailable source object and lazy targets whose directory object is not in storage (workspace with / without that directory; default raising and application-installed collecting load-error handler on the index, same outcome demanded); "
         "non-trivial = non-empty, different prior and target"
     )
     ctx.bound = {"priors": len(priors), "targets": len(targets),
